@@ -16,6 +16,8 @@ def rand_value(rng, kind=None):
         n = rng.choice([0, 1, 2, 3, 4, 5, 6, 8, 11, 14])
         s = ''.join(rng.choice(ALNUM + '  .-') for _ in range(n))
         return ('str', s)
+    if kind == 'nan':
+        return ('nan', None)
     if kind == 'int':
         k = rng.random()
         if k < 0.3:
@@ -87,6 +89,8 @@ def py_value(val, prec):
     kind, x = val
     if kind == 'fix':
         return x / 10 ** prec
+    if kind == 'nan':
+        return float('nan')
     return x
 
 
@@ -145,6 +149,8 @@ def oracle(value, spec, status, result):
 
 def enc_val(val):
     kind, x = val
+    if kind == 'nan':
+        return [3]
     return [{'int': 0, 'str': 1, 'fix': 2}[kind], x]
 
 
@@ -158,7 +164,7 @@ def stream(rng, n):
         elif rng.random() < 0.12:
             kind = None                       # any kind, matching the type letter or not
         else:
-            kind = {'s': 'str', 'd': 'int', 'f': rng.choice(['fix', 'fix', 'int']), 'F': 'fix',
+            kind = {'s': 'str', 'd': 'int', 'f': rng.choice(['fix', 'fix', 'fix', 'fix', 'int', 'int', 'nan']), 'F': 'fix',
                     '': rng.choice(['str', 'int'])}.get(ty)
         val = rand_value(rng, kind)
         out.append(('fmt-%d' % i, spec, val, prec if prec is not None else 0))
